@@ -449,6 +449,27 @@ def run(rep, pdb, tier):
             unfiltered = replaces and tok(p_, i) and tok(s_, i2) and toklist(p_) and toklist(s_) and p_.value[2][2][1] == s_.value[2][2][1] and ri_[2] == ("len", p_.value[2][2][1])
             okr = iscoord and isvar and slot and unfiltered and rv is not None and rv[1:4] == (num(0), NV, False)
         rep.add("io-agreement", rule, bool(okw and okr), w["body"], "writer record = coordinate + nvars values: %s; reader stride nvars+1 with matching field order: %s" % (okw, okr), where=loc(w["body"]))
+        # the writer starts from an empty file: a longer earlier output must not survive behind a shorter new one
+        creates = [n for n in walk(w["body"]) if n.get("k") == "Call" and strip(n["f"]).get("k") == "Def" and str(n["f"].get("fn", "")).endswith("File::create")]
+        opens = [n for n in walk(w["body"]) if n.get("k") == "MethodCall" and n.get("name") == "open" and "OpenOptions" in str(n.get("fn") or n.get("impl") or "")]
+        def _chain(n):
+            out = []
+            r_ = strip(n["recv"])
+            while r_.get("k") == "MethodCall":
+                out.append((r_.get("name"), [strip(a) for a in r_.get("args", [])]))
+                r_ = strip(r_["recv"])
+            return out
+        okt = bool(creates) or bool(opens)
+        dett = "File::create calls: %d, OpenOptions::open calls: %d" % (len(creates), len(opens))
+        for o_ in opens:
+            ch = _chain(o_)
+            trunc = any(nm == "truncate" and a_ and a_[0].get("k") == "Lit" and a_[0].get("v") == "true" for nm, a_ in ch)
+            app = any(nm == "append" and a_ and a_[0].get("k") == "Lit" and a_[0].get("v") == "true" for nm, a_ in ch)
+            if not trunc or app:
+                okt = False
+                dett += "; open without truncate(true) at %s" % loc(o_)
+        rep.add("io-truncates", "output opens the file truncating it (File::create, or OpenOptions with truncate(true) and no append): otherwise the tail of a longer earlier output is read back as extra records",
+                okt, (opens or creates or [w["body"]])[0], dett)
     rep.floor("flat-index/", 10)
     rep.floor("accessor-guards/", 9)
     rep.floor("storage/", 4)
